@@ -74,6 +74,47 @@ def canon_locals(stmts):
     return out
 
 
+
+def _rename(body, ren):
+    ren = {k: v for k, v in ren.items() if k != v}
+    if not ren or (set(ren.values()) & set(ren.keys())):
+        return body
+    pat = re.compile(r'(?<![\w])(' + '|'.join(re.escape(k) for k in ren) + r')(?![\w])')
+    return pat.sub(lambda mm: ren[mm.group(1)], body)
+
+
+def canon_dyn(fn, body):
+    """the locals of the generated Dynamic<Name> functions carry no meaning: bring them to the names the
+    templates below use (a loose match finds each binder by its position, then the text is renamed)"""
+    ren = {}
+
+    def bind(rx, *names):
+        m = re.search(rx, body)
+        if m:
+            for g, n in zip(m.groups(), names):
+                ren.setdefault(g, n)
+
+    if fn == 'handle':
+        bind(r'^let (\w+)=self\.inner\.take\(\)', 'current')
+        bind(r';let (\w+)=match\(\w+,event\)\{', 'new_state')
+        bind(r'\(Any\w+State::\w+\((\w+)\),\w+Event::\w+(?:\(\w+\))?\)=>\{match (\w+)\.', 'm', 'm')
+        bind(r'\{Ok\((\w+)\)=>Any\w+State::\w+\((\w+)\),Err\(\((\w+),(\w+)\)\)=>', 'new_machine', 'new_machine', 'old_machine', 'err')
+        bind(r'\}(\w+)=>(\w+),\}\);', 'other', 'other')
+        bind(r'\((\w+),event\)=>\{let (\w+)=(\w+)\.name\(\);', 'state', 'state_name', 'state')
+    elif fn.startswith('set_') and fn.endswith('_data'):
+        bind(r'Option::Some\((\w+)\)=>match (\w+)\{', 'state', 'state')
+        bind(r'State::\w+\((\w+)\)\)?=>\{(\w+)\.\w+=', 'machine', 'machine')
+        bind(r'\}(\w+)=>Err\(\S*?wrong_state\("[^"]*",(\w+)\.name\(\)', 'other', 'other')
+        bind(r'Option::Some\((\w+)\)=>Err\(\S*?wrong_state\("[^"]*",(\w+)\.name\(\)', 'other', 'other')
+    elif fn.endswith('_data') or fn.endswith('_data_mut'):
+        bind(r'State::\w+\((\w+)\)=>(\w+)\.\w+\.as_', 'machine', 'machine')
+    elif fn.startswith('into_'):
+        bind(r'Option::Some\(Any\w+State::\w+\((\w+)\)\)=>Ok\((\w+)\)', 'm', 'm')
+        bind(r',(\w+)=>\{self\.inner=(\w+);', 'other', 'other')
+    # a binder found twice under different names is not a plain renaming: leave the text alone
+    return _rename(body, ren)
+
+
 def stmt_code(st, name):
     m = RE_AB.match(st)
     if m and m.group(1) == m.group(3):
@@ -168,15 +209,16 @@ def skel_table(skel, name, concrete):
                 fns = {f['name']: f for f in it['fns'] if 'name' in f}
                 for f in [x for x in it['fns'] if 'name' in x]:
                     fn = f['name']
-                    body = ''.join(f['stmts'])
+                    body = canon_dyn(fn, ''.join(f['stmts']))
                     if fn.startswith('set_') and fn.endswith('_data'):
                         base = fn[4:-5]
                         lit = re.search(r'wrong_state\("([^"]*)",other\.name\(\),stringify!\((\w+)\)', body)
-                        vs = re.findall(r'Any%sState::(\w+)\(machine\)=>\{machine\.(\w+)=' % re.escape(name), body)
+                        # nested (`Some(state) => match state { X(machine) => ..`) or flattened (`Some(X(machine)) => ..`)
+                        vs = re.findall(r'Any%sState::(\w+)\(machine\)\)?=>\{machine\.(\w+)=' % re.escape(name), body)
                         rd = fns.get(base + '_data')
                         wr = fns.get(base + '_data_mut')
-                        rvs = re.findall(r'Any%sState::(\w+)\(machine\)=>machine\.(\w+)\.as_ref\(\)' % re.escape(name), ''.join(rd['stmts'])) if rd else None
-                        wvs = re.findall(r'Any%sState::(\w+)\(machine\)=>machine\.(\w+)\.as_mut\(\)' % re.escape(name), ''.join(wr['stmts'])) if wr else None
+                        rvs = re.findall(r'Any%sState::(\w+)\(machine\)=>machine\.(\w+)\.as_ref\(\)' % re.escape(name), canon_dyn(base + '_data', ''.join(rd['stmts']))) if rd else None
+                        wvs = re.findall(r'Any%sState::(\w+)\(machine\)=>machine\.(\w+)\.as_mut\(\)' % re.escape(name), canon_dyn(base + '_data_mut', ''.join(wr['stmts']))) if wr else None
                         if rvs != vs or wvs != vs or lit is None or lit.group(2) != fn:
                             out.append('BAD-DACC|%s|%s|%s|%s' % (fn, vs, rvs, wvs))
                         else:
